@@ -2,6 +2,11 @@
 
 package main
 
+import (
+	"fmt"
+	"io"
+)
+
 func getState(p *parser) map[string]any { return nil }
 
 // The optimized template without state blocks has no stateCodeExpr type; the
@@ -9,3 +14,5 @@ func getState(p *parser) map[string]any { return nil }
 type unknownStateCodeExpr struct{}
 
 func mkStateCode(run func(p *parser) error) any { return &unknownStateCodeExpr{} }
+
+func poolTest(seed int64, n int, w io.Writer) { fmt.Fprintln(w, "nostate") }
